@@ -55,6 +55,10 @@ pub struct Case {
     /// server's accept() fails to authenticate it, the client's retransmission is a new attempt
     #[serde(default)]
     pub corrupt_first: Vec<u8>,
+    /// the servers announce a preferred address (one more connection ID per connection, carried in the
+    /// transport parameters)
+    #[serde(default)]
+    pub preferred: bool,
 }
 
 fn gen() -> XferGen {
@@ -76,8 +80,9 @@ pub fn arb_case() -> impl Strategy<Value = Case> {
         (prop::option::weighted(0.2, 1u8..=2), prop::option::weighted(0.2, 1u8..=2)),
         prop_oneof![2 => Just(vec![]), 1 => prop::collection::vec((0u8..12, 2u16..80), 1..4)],
         prop_oneof![3 => Just(vec![]), 1 => prop::collection::vec(0u8..10, 1..3)],
+        prop::bool::weighted(0.2),
     )
-        .prop_map(|(net, n_ceps, n_seps, conns, target, life_c, life_s, (short_c, short_s), stale, corrupt_first)| {
+        .prop_map(|(net, n_ceps, n_seps, conns, target, life_c, life_s, (short_c, short_s), stale, corrupt_first, preferred)| {
             let mut net = net;
             net.client_ep.cid_lifetime_ms = life_c;
             net.server_ep.cid_lifetime_ms = life_s;
@@ -86,7 +91,7 @@ pub fn arb_case() -> impl Strategy<Value = Case> {
                     ep.cid_len = l;
                 }
             }
-            normalize_case(Case { net, n_ceps, n_seps, conns, target, stale, corrupt_first })
+            normalize_case(Case { net, n_ceps, n_seps, conns, target, stale, corrupt_first, preferred })
         })
 }
 
@@ -163,6 +168,11 @@ pub fn case(c: &Case) -> CaseOut {
     // per address; several connections share addresses here
     w.check_amp = false;
     w.stale_accepts = c.stale.iter().map(|(n, h)| (*n as u32, *h as u32 * 1000)).collect();
+    if c.preferred && c.net.server_ep.cid_len > 0 {
+        w.server_cfg_hook = Some(std::rc::Rc::new(|sc: &mut quinn_proto::ServerConfig| {
+            sc.preferred_address_v6(Some(std::net::SocketAddrV6::new(std::net::Ipv6Addr::new(0xfd00, 0, 0, 0, 0, 0, 0, 2), 4433, 0, 0)));
+        }));
+    }
     // additional endpoints (index 0 and 1 exist)
     let mut ceps = vec![CLIENT_EP];
     let mut seps = vec![SERVER_EP];
@@ -484,7 +494,9 @@ pub fn case(c: &Case) -> CaseOut {
         // (the IDs a server issues in NEW_CONNECTION_ID frames are only visible under SimCrypto; a client
         // switches to such an ID even for its remaining Initial and Handshake packets)
         for (ep, cid) in &odcids {
-            if c.net.crypto == CryptoKind::Sim && cid.len() == w.eps[*ep].spec.cid_len as usize && !cids.contains(&(*ep, cid.clone())) {
+            // (nor is the connection ID a server announces with its preferred address: it travels in the
+            // transport parameters)
+            if c.net.crypto == CryptoKind::Sim && !c.preferred && cid.len() == w.eps[*ep].spec.cid_len as usize && !cids.contains(&(*ep, cid.clone())) {
                 probe(&mut w, *ep, cid);
             }
         }
@@ -650,6 +662,21 @@ pub fn case(c: &Case) -> CaseOut {
             return CaseOut::fail("c09/bookkeeping/open-connections", format!("endpoint {i} reports {n} open connections after all of them drained"));
         }
     }
+    // every routing table of every endpoint is empty again (attempts still held by the application keep
+    // their initial route and buffer)
+    for (i, e) in w.eps.iter().enumerate() {
+        let mut sz = e.ep.verif_index_sizes();
+        if !e.pending_incoming.is_empty() {
+            sz[0] = 0;
+            sz[5] = 0;
+        }
+        if sz != [0; 6] {
+            return CaseOut::fail(
+                "c09/bookkeeping/routing-table-not-empty",
+                format!("endpoint {i}: after every connection drained the routing tables still hold [initial destination IDs, issued IDs, incoming remotes, outgoing remotes, reset tokens, buffered attempts] = {sz:?}"),
+            );
+        }
+    }
     // stale connection IDs route nowhere
     let first_probe = w.next_dgram_id;
     let t0 = w.now;
@@ -706,6 +733,9 @@ pub fn case(c: &Case) -> CaseOut {
     }
     if reset_honoured {
         labels.push("genuine-reset-honoured");
+    }
+    if c.preferred {
+        labels.push("preferred-address");
     }
     if live_max >= 3 {
         labels.push("three-or-more-live");
